@@ -2,7 +2,10 @@
 from common_props import COMMON_TRUSTED
 
 CFG = {
-    "engines": [["peerinput", 70, 1500], ["frag", 120, 1500], ["peerfx", 300, 6000]],
+    "engines": [["peerinput", 70, 1500], ["frag", 120, 1500], ["peerfx", 300, 6000], ["poolcross", 200, 4000]],
+    # subs whose model output is PROVED equal to the specification of the pooled object's user on its own input
+    # (Proofs/PoolReaderP.v, independent of the generated table): a disagreement is a concrete failing input
+    "spec_subs": {"poolreader": ["theories/Proofs/PoolReaderSpecP.vo"], "poolwriter": ["theories/Proofs/PoolReaderSpecP.vo"]},
     "rule": "peerinput: a channel (server role, relay role with a backend) hosted in a CHILD process is attacked by a raw TCP peer with "
             "generated sequences: every message type byte, truncated payloads, payload bytes set to boundary values, size-field games, "
             "duplicate/unknown ids, frames in illegal order, short-ttl call then id re-use, error/cancel/init/ping variants, hostile "
@@ -26,7 +29,20 @@ CFG = {
             "1-3 slot send buffer); after each frame: frames received, calls dispatched, frames queued on exchanges, contexts cancelled, exchanges "
             "stopped, and a snapshot of connection state + both exchange maps are compared with the model; oracle from the statement: a frame built "
             "to be malformed/illegal is only dropped, answered by one error frame, or shuts this connection down, dispatches nothing, touches no "
-            "other exchange, and the reader goroutine always returns to reading. All sequences non-trivial; distinct by description and content.",
+            "other exchange, and the reader goroutine always returns to reading. All sequences non-trivial; distinct by description and content. "
+            "poolcross: state surviving in POOLED objects from one user to the next (garbage collector off while a case runs). Unit level in this process: "
+            "poolreader = sequences of uses of pooled typed.Readers (thrift.ReadHeaders on well-formed / truncated / lying / empty / random header blocks whose "
+            "underlying reader ends with io.EOF or its own error; scripted ReadUint16 / ReadString / ReadLen16String / Err), every second case after the pool "
+            "was filled with Readers in an arbitrary prior state (every field, found by reflection, poisoned), the others on what the case's own uses leave behind; "
+            "all values and errors compared with the model, oracle: a Reader fresh from NewReader has no error and a well-formed block decodes to its map; "
+            "poolwriter = typed.Writer over a bounded writer with a poisoned scratch pool (bytes written, error); poolproto = thrift.ReadStruct on malformed "
+            "bytes, then a well-formed struct must round-trip through the pooled protocol objects. Process level poolxconn: a CHILD process with a Thrift "
+            "service, a JSON handler and a raw handler (one P / all Ps; half of the sequences on poisoned pools); connection A = a raw TCP peer sending 1-48 "
+            "hostile calls with valid framing (header block 00 01 00 05 'a', cut at a random byte, count 65535, empty, trailing junk, second fragment with a bad "
+            "checksum inside the header block, arg3 struct cut / random, malformed JSON, unknown methods, call cut by closing the connection, raw arg scheme, "
+            "the child's OWN outbound Thrift call answered with a truncated header block); then connection B = a real client channel makes 8 well-formed "
+            "Thrift / JSON calls: every one must return the right result and response headers (a deadline has to reproduce 3 of 3; a wrong result or a stale "
+            "error fails at once) and the child must stay alive.",
     "trusted_base": COMMON_TRUSTED + [
         "modelled by hand (tied by correspondence, engine frag/fragparse and msg): parseInboundFragment, chunk loop, checksum pool lookup, "
         "message decoders, ReadBody size test, ReadBuffer guards; regenerated from source: Connection.handleFrameRelay routing, frameTypeFor, "
@@ -42,10 +58,28 @@ CFG = {
         "(tomb, false, found), item.tomb => the tomb flag, the four call.Failed/SendSystemError statements => markers",
         "relay bookkeeping under id re-use: the hand model Model/RelayItems.v of C09/C10 (tied by their engines relaysched/relaywire); "
         "C03_relay_reuse_no_panic holds for schedules in which a re-used id meets an item at getDestination (re-use within the tombstone period)",
+        "regenerated from source (go2v/poolreset.go, Gen/GenPoolReset.v) and checked by the executable discipline Model/PoolReset.v "
+        "(C03_pool_reset_discipline_generated, C03_pool_table_complete, C03_pool_exceptions_current): for every sync.Pool of the library its element type, "
+        "the fields of the pooled struct with the functions in which each is live on entry / assigned / aliased, the reset statements of every Get and Put "
+        "site. Trusted there: the syntactic definite-assignment analysis of go2v (a field is 'live on entry' of a function iff read before an unconditional "
+        "write in its block structure; calls into other functions are analysed per callee, not inlined), and the 14 reviewed exceptions of "
+        "Model/PoolReset.pr_exceptions (scratch buffers, the third-party TBinaryProtocol, the relay timer re-initialised by Start), each pinned to the exact "
+        "reader / writer function sets (and use statements) it was reviewed for; the frame pool is delegated (stale frame bytes are quantified over in Model/PeerInput.v)",
+        "modelled by hand, Get / Put resets and field list regenerated and proved equal (C03_reader_get_path_generated), behaviour tied by correspondence "
+        "(engine poolcross, subs poolreader / poolwriter) and proved equal to the specification of the thrift header block: typed.Reader (NewReader, ReadUint16, "
+        "ReadString, ReadLen16String, Err, Release), thrift readHeaders / ReadHeaders, typed.Writer (WriteBytes, WriteUint16, WriteLen16Bytes), io.ReadFull over a "
+        "reader that delivers bytes and then an error",
+        "harness overlays typed.VerifPoisonObject / VerifPoisonReaderPool / VerifPoisonIntBufferPool, thrift.VerifPoisonProtocolPool (reflection + unsafe: put "
+        "objects in an arbitrary prior state into the pools; pointers to foreign structs are left alone)",
         "NOT modelled (oracle only, child process): dispatch goroutines after the hand-over, exchange-set locking, handler scheduling, "
         "the relay under hostile input other than id re-use",
     ],
-    "assumptions": ["relay id re-use: the theorem's schedules re-use an id while the relay still holds an item for it; a re-use after the item is gone "
+    "assumptions": ["pooled objects: the generic isolation theorem (C03_pool_discipline_isolates_users) assumes that a user's run reads only the fields go2v lists as "
+                    "live on entry before writing them (respects); for typed.Reader / typed.Writer this is proved on the executable model instead of assumed; for the "
+                    "thrift protocol pool, the argreader scratch and the relay timer it rests on the reviewed exceptions and the engine (poolproto, poolxconn)",
+                    "pooled Reader: the underlying io.Reader delivers its bytes and then a non-nil error (a reader that returns (0, nil) forever would make io.ReadFull spin: "
+                    "the argument readers of the library do not)",
+                    "relay id re-use: the theorem's schedules re-use an id while the relay still holds an item for it; a re-use after the item is gone "
                     "(call completed, tombstone collected) is a fresh call for the code and is covered by the engine only; a tombstone deleted early while its "
                     "collection is still pending (two goroutines racing on one call) is outside the theorem (model witness C03_relay_reuse_unguarded_refuted) "
                     "and covered by the forced schedule race0 of the engine (defect c03:tombstone-collection-deletes-live-item, fixed by e53c62e)",
